@@ -159,6 +159,22 @@ let handle (line : string) : string =
     let (l2, _) = parse_link r in
     inv kind l1 l2
   | "braid" :: s :: w -> braid (nat_of_string s) (Stdlib.List.map z_of_string w)
+  | "bgrp" :: s1 :: n1 :: r ->
+    (* inverse, product (None = the assert_eq! on the strand counts) and the closure of w1 * w1^-1 *)
+    let s1 = nat_of_string s1 and n1 = int_of_string n1 in
+    let rec take k l acc = if k = 0 then (Stdlib.List.rev acc, l) else (match l with x :: t -> take (k - 1) t (x :: acc) | [] -> failwith "bgrp") in
+    let (w1s, r) = take n1 r [] in
+    (match r with
+     | s2 :: w2s ->
+       let s2 = nat_of_string s2 in
+       let w1 = Stdlib.List.map z_of_string w1s and w2 = Stdlib.List.map z_of_string w2s in
+       let word w = if w = [] then "-" else String.concat "," (Stdlib.List.map string_of_z w) in
+       let inv = braid_inv w1 in
+       let prod = (match braid_mul s1 w1 s2 w2 with Some (s, w) -> sn s ^ ":" ^ word w | None -> "P") in
+       let cancel = (match braid_mul s1 w1 s1 inv with Some (s, w) -> braid s w | None -> "P") in
+       Printf.sprintf "inv=%s:%s len=%s triv=%d prod=%s cancel=%s" (sn s1) (word inv) (sn (braid_len inv))
+         (if braid_is_triv w1 then 1 else 0) prod cancel
+     | [] -> failwith "bgrp")
   | "braidfrom" :: w ->
     let w = Stdlib.List.map z_of_string w in
     braid (strands_of_word w) w
